@@ -12,7 +12,10 @@ from mc import core, ir, pipeline, program
 PROP = "C10"
 FWS = ["base", "pydantic", "sqlmodel", "attrs", "dataclasses"]
 POOL = [f"s{i:02d}" for i in range(18)]
-LEN_CLASSES = {"short": None, "len19": "y" * 19, "len20": "y" * 20, "len21": "y" * 21, "len0": "", "blank": " "}
+LEN_CLASSES = {"short": None, "len19": "y" * 19, "len20": "y" * 20, "len21": "y" * 21, "len0": "", "blank": " ",
+               # every string at the length limit (19 characters, differing in the 2nd/3rd): the whole set is as long as a legal
+               # Literal can get (15 x 19 characters) - what any bounded textual identity / repr of a literal set would cut
+               "all19": "<all>"}
 CO = ["none", "null", "absent", "pseudo_int", "pseudo_mix"]
 ESC_SYMBOLS = ['"', "'", "\\", "\n", ",", "é", "a", "A", "\U0001F600", "\u2028", "\x85"]
 
@@ -66,6 +69,8 @@ def _strings(case):
     n = case["n"]
     out = POOL[:n]
     special = LEN_CLASSES[case["len"]]
+    if special == "<all>":
+        return [x + "y" * (19 - len(x)) for x in out]
     if special is not None and n > 0:
         out = [special] + out[1:]
     return out
